@@ -274,6 +274,9 @@ fn oracle(s: &ProgScene<X>, t: &Trace) -> Vec<Violation> {
 
 /// layout code: callers that give up (see make_case_s)
 const GIVE_UP: u8 = 50;
+/// layout code: fire and forget, then let go - the one client sends everything and drops its
+/// handle; nobody owns, stops or awaits the actor (the limit holds for what is still queued)
+const LET_GO: u8 = 60;
 
 thread_local! {
     /// no client owns the actor (see make_case_s)
@@ -330,7 +333,10 @@ fn make_case_s(timeout: Option<u32>, fail: bool, durs: &[u32], mailbox: Mailbox,
     }
     // layout 0: one client sends all but the last and calls the last; layout 1: one caller per message
     let mut clients = vec![];
-    if layout == GIVE_UP {
+    if layout == LET_GO {
+        let ops: Vec<Op> = durations.iter().map(|(id, _)| Op::Send(H::Addr(0), *id)).collect();
+        clients.push(ClientSpec { init: vec![HInit::Addr], ops });
+    } else if layout == GIVE_UP {
         // one client per message; each gives its call up after the first poll (alternating
         // Addr::call and Caller::call): the handler is none of the client's business any more,
         // only the configured limit may abandon it
@@ -360,14 +366,16 @@ fn make_case_s(timeout: Option<u32>, fail: bool, durs: &[u32], mailbox: Mailbox,
     }
     // the owner waits for the end: join (fail config) or after a long sleep stop + join
     let total: u32 = durs.iter().sum::<u32>() + 3 + if layout >= 2 && layout != GIVE_UP { layout as u32 * durs.len() as u32 } else { 0 };
-    if DETACHED.with(|d| d.get()) {
+    if layout == LET_GO {
+        // (nobody: the actor ends when it has worked off its mailbox - or fails before)
+    } else if DETACHED.with(|d| d.get()) {
         // nobody owns the actor (it is built through the detached terminal `spawn()`): the end
         // comes by stop + await through a plain address
         clients.push(ClientSpec { init: vec![HInit::Addr], ops: vec![Op::Sleep(total), Op::Stop(H::Addr(0)), Op::Await(H::Addr(0))] });
     } else {
         clients.push(ClientSpec { init: vec![HInit::Own], ops: vec![Op::Sleep(total), Op::Consume(H::Own(0))] });
     }
-    if fail {
+    if fail && layout != LET_GO {
         clients.push(ClientSpec { init: vec![HInit::Addr], ops: vec![Op::Sleep(total), Op::Halt(H::Addr(0))] });
     }
     let desc = format!(
@@ -498,6 +506,14 @@ fn cases(tier: Tier) -> Vec<Case> {
     // third case; thorough: all)
     let step = if tier == Tier::Thorough { 1 } else { 3 };
     v.extend(with_detached(|| base_cases(tier)).into_iter().enumerate().filter(|(i, c)| i % step == 0 && !c.desc.contains("t=None")).map(|(_, c)| c));
+    // the limit holds for letters that are still queued when the last handle has gone
+    for fail in [false, true] {
+        for &mb in &[Mailbox::U, Mailbox::B(1)] {
+            for durs in [vec![4u32], vec![0, 4], vec![1, 4, 0], vec![4, 4]] {
+                v.push(make_case(Some(2), fail, &durs, mb, LET_GO));
+            }
+        }
+    }
     // a limit that is not a whole number of milliseconds: 2.5 ms (three ticks of the virtual
     // clock) - a handler of 2 ms completes, one of 4 ms is abandoned
     HALF_MS.with(|h| h.set(true));
